@@ -456,12 +456,16 @@ def annotate_loops(text, loops, labels, unit_name, fn_name):
 
 def apply_hints(text, hints, fn_name):
     for h in hints:
-        if "after_loop" in h or "loop_body_start" in h or "loop_body_end" in h:
-            # structural anchors: right after the closing brace / right after the opening brace of loop #n
-            n = h.get("after_loop", h.get("loop_body_start", h.get("loop_body_end")))
+        if "after_loop" in h or "loop_body_start" in h or "loop_body_end" in h or "before_loop" in h:
+            # structural anchors: right after the closing brace / right after the opening brace of loop #n / right before the loop keyword
+            n = h.get("after_loop", h.get("loop_body_start", h.get("loop_body_end", h.get("before_loop"))))
             found = find_loops(text)
             if n >= len(found):
                 raise ExtractError("lost anchor: loop #%d for a structural hint in %s" % (n, fn_name))
+            if "before_loop" in h:
+                kw = found[n][1]
+                text = text[:kw] + h["text"] + "\n" + text[kw:]
+                continue
             ob = found[n][2]
             sub = text[ob:]
             toks = lex.code_tokens(sub)
